@@ -123,7 +123,7 @@ func (c *Container) addHandler(service *WebService, serveMux *http.ServeMux) boo
 	// detect if registration already exists
 	alreadyMapped := false
 	for _, each := range c.webServices {
-		if each.RootPath() == service.RootPath() {
+		if each != service && each.RootPath() == service.RootPath() {
 			alreadyMapped = true
 			break
 		}
